@@ -804,12 +804,14 @@ class Interp:
         if m:
             v = self.eval_operand(path, fid, func, m.group(2)) if m.group(1) == "PtrMetadata" else \
                 self.read(path, fid, *self.parse_place(m.group(2)))
-            if v.kind == "ref":
-                v = self.read(path, v.fid, v.local, v.projs)
             if isinstance(v, _ConstRef):
                 v = v.target
+            elif v.kind == "ref":
+                v = self.read(path, v.fid, v.local, v.projs)
             if v.kind == "struct" and v.ty.startswith("["):
                 return IntV(len(v.fields), "usize")
+            if v.kind == "struct" and v.ty == "SymSlice":
+                return IntV(v.fields[0].term, "usize")       # slice of symbolic length (contents not modelled)
             raise Refuse("Len of %r" % (v,))
         m = re.match(r"^(\w+)\((.*)\)$", s)
         if m and m.group(1) in self.BINOPS:
@@ -915,7 +917,7 @@ class Interp:
         if self.overrides:
             cn = self.models.canon(name)
             for rx, h in self.overrides:
-                if rx.search(cn):
+                if rx.search(cn) or rx.search(name):
                     return ("model", h)
         # closure call through Fn* traits
         m = re.match(r"^<(.+) as (?:std|core)::ops::(FnOnce|FnMut|Fn)<.*>>::(call_once|call_mut|call)$", name)
